@@ -23,11 +23,12 @@ import (
 )
 
 // Event is one observable step, in order of occurrence.
-//   kind = register | try | invoke | respond
+//
+//	kind = register | try | invoke | respond
 type Event struct {
 	Kind     string `json:"kind"`
-	Action   string `json:"action,omitempty"`   // try/invoke: which registered service ran
-	Method   string `json:"method,omitempty"`   // invoke: commit | rollback
+	Action   string `json:"action,omitempty"` // try/invoke: which registered service ran
+	Method   string `json:"method,omitempty"` // invoke: commit | rollback
 	Xid      string `json:"xid,omitempty"`
 	Branch   int64  `json:"branch"`
 	Resource string `json:"resource,omitempty"` // register: resource id; invoke: ActionName of the context
@@ -101,9 +102,9 @@ func (s *svc) GetActionName() string { return s.name }
 
 // a service declared through struct tags instead of TwoPhaseInterface
 type taggedSvc struct {
-	Try    func(ctx context.Context, params interface{}) (bool, error)               `seataTwoPhaseAction:"prepare" seataTwoPhaseServiceName:"actTagged"`
+	Try     func(ctx context.Context, params interface{}) (bool, error)            `seataTwoPhaseAction:"prepare" seataTwoPhaseServiceName:"actTagged"`
 	Confirm func(ctx context.Context, bac *tm.BusinessActionContext) (bool, error) `seataTwoPhaseAction:"commit"`
-	Cancel func(ctx context.Context, bac *tm.BusinessActionContext) (bool, error)  `seataTwoPhaseAction:"rollback"`
+	Cancel  func(ctx context.Context, bac *tm.BusinessActionContext) (bool, error) `seataTwoPhaseAction:"rollback"`
 }
 
 // ---- remoting recorders ---------------------------------------------------------
@@ -201,8 +202,8 @@ type Phase2Case struct {
 	Xid       string  `json:"xid"`
 	Branch    int64   `json:"branch"`
 	MsgID     int32   `json:"msg_id"`
-	AppKind   string  `json:"app_kind"` // captured | empty | noctx | malformed
-	AppData   string  `json:"app_data"` // hex of the bytes sent
+	AppKind   string  `json:"app_kind"`           // captured | empty | noctx | malformed
+	AppData   string  `json:"app_data"`           // hex of the bytes sent
 	Captured  []Field `json:"captured,omitempty"` // the parameter fields of the prepare whose data is replayed
 	CapAction string  `json:"cap_action,omitempty"`
 	UserFails bool    `json:"user_fails"`
@@ -282,8 +283,14 @@ func oraclePrepare(c *PrepareCase) string {
 	if tryAt < regAt {
 		return "try ran before the branch was registered"
 	}
-	if c.Events[tryAt].Branch != c.BID {
-		return "try did not see the registered branch id"
+	if c.Events[tryAt].Branch != c.BID || c.Events[tryAt].Xid != c.Xid || c.Events[tryAt].Resource != names[c.Action] {
+		return "try did not see the registered branch id / xid / action name in its business action context"
+	}
+	if c.Events[tryAt].Phase != 1 {
+		return fmt.Sprintf("try ran with fence phase %d (want prepare)", c.Events[tryAt].Phase)
+	}
+	if r.LockKey != "" {
+		return "tcc registration carries lock keys"
 	}
 	// application data = the tagged parameters (checked against the model in Coq; here: shape only)
 	if r.Data == nil || r.Data.T != "map" {
@@ -344,6 +351,35 @@ func oraclePhase2(c *Phase2Case) string {
 	i := inv[0]
 	if i.Action != c.Resource || i.Method != c.Method || i.Xid != c.Xid || i.Branch != c.Branch {
 		return fmt.Sprintf("dispatched to %s.%s(%s,%d) for request %s.%s(%s,%d)", i.Action, i.Method, i.Xid, i.Branch, c.Resource, c.Method, c.Xid, c.Branch)
+	}
+	wantPhase := 2
+	if c.Method == "rollback" {
+		wantPhase = 3
+	}
+	if i.Phase != wantPhase {
+		return fmt.Sprintf("user %s invoked with fence phase %d in its context (want %d)", c.Method, i.Phase, wantPhase)
+	}
+	if i.Resource != c.Resource {
+		return "action context names another action than the request's resource"
+	}
+	if c.AppKind == "captured" {
+		// the property's own statement: the context is JSON-equivalent to what was captured at prepare,
+		// i.e. to what encoding/json reads back from the registered application data
+		data, _ := hex.DecodeString(c.AppData)
+		want := decodeData(data)
+		var wantCtx *Val
+		if want != nil && want.T == "map" {
+			for j, k := range want.K {
+				if k == hex.EncodeToString([]byte("actionContext")) {
+					wantCtx = &want.L[j]
+				}
+			}
+		}
+		a, _ := json.Marshal(wantCtx)
+		b, _ := json.Marshal(i.Data)
+		if wantCtx == nil || string(a) != string(b) {
+			return "the action context handed to the user's " + c.Method + " is not JSON-equivalent to the one registered at prepare"
+		}
 	}
 	if len(resp) != 1 {
 		return fmt.Sprintf("%d responses for one request (user failed = %v): no status reported", len(resp), c.UserFails)
